@@ -9,7 +9,7 @@ from tscen import *
 
 def scenarios(quick):
     out = []
-    stacks = [[retry(2, dly=2)], [hg(1, 2)], [fb(), retry(1, dly=1)], [to(3), retry(1, dly=1)], [], [retry(0)], [hg(0, 2)]]
+    stacks = [[retry(2, dly=2)], [hg(1, 2)], [fb(), retry(1, dly=1)], [to(3), retry(1, dly=1)], [], [retry(0)], [hg(0, 2)], [to(20), hg(1, 3)]]
     T = 7 if quick else 10
     for st in stacks:
         for coop in (True, False):
